@@ -10,7 +10,7 @@
 (***************************************************************************)
 EXTENDS MhlHistory, Json, IOUtils
 
-VARIABLE l
+VARIABLES l, sealed
 
 TraceLog == ndJsonDeserialize(IOEnv.TRACE_FILE)
 
@@ -48,8 +48,6 @@ OpOf(o) ==
 ObOf(e) ==
   [exit |-> e.exit, internal |-> e.internal, missing |-> SeqSet(e.out.missing),
    mismatch |-> SeqSet(e.out.mismatch), new |-> SeqSet(e.out.new), eff |-> e.eff]
-SealedOf(list) == TLCEval([r \in {list[i].r : i \in DOMAIN list} |->
-                     DiskOf(list[CHOOSE i \in DOMAIN list : list[i].r = r].disk)])
 
 (***************************************************************************)
 (* Byte-level clauses that only exist on real traces                       *)
@@ -147,13 +145,13 @@ GenEq(a, b, field) ==
     [] field = "n"     -> a.n = b.n
 
 Verdict(e) ==
-  LET pre  == HistOf(e.pre.hist)
+  LET sld  == IF e.i = 0 THEN <<>> ELSE sealed
+      pre  == HistOf(e.pre.hist)
       post == HistOf(e.post.hist)
       dk   == DiskOf(e.pre.disk)
       o    == OpOf(e.op)
       ob   == ObOf(e)
       ign  == SeqSet(e.ign)
-      sealed == SealedOf(e.sealed)
       W    == Wrote(pre, post)
       base == [tid |-> e.tid, i |-> e.i, op |-> o.op, exit |-> e.exit,
                P_C06_AppendOnly |-> P_C06_AppendOnly(pre, post),
@@ -181,7 +179,7 @@ Verdict(e) ==
               P_C02_RecordSet |-> P_C02_RecordSet(pre, post, dk, o, ob, ign),
               P_C02_Digests |-> P_C02_Digests(pre, post, dk, o, ob),
               P_C02_SingleFiles |-> P_C02_SingleFiles(pre, post, dk, o, ob),
-              P_C03_NoFalseAlarm |-> P_C03_NoFalseAlarm(pre, dk, sealed, o, ob, ign),
+              P_C03_NoFalseAlarm |-> P_C03_NoFalseAlarm(pre, dk, sld, o, ob, ign),
               P_C03_Altered |-> P_C03_Altered(pre, dk, o, ob, ign),
               P_C03_Removed |-> P_C03_Removed(pre, dk, o, ob, ign),
               P_C03_Quiet |-> P_C03_Quiet(pre, dk, o, ob, ign),
@@ -193,7 +191,7 @@ Verdict(e) ==
               P_C08_WhoWrites |-> P_C08_WhoWrites(pre, post, dk, o, ob, ign),
               P_C12_Excluded |-> P_C12_Excluded(pre, post, o, ob, ign),
               P_C12_Accumulate |-> P_C12_Accumulate(pre, post, o, ob),
-              A_unchanged |-> Len(GensOf(pre, o.R)) > 0 /\ Unchanged(dk, sealed, o.R, ign),
+              A_unchanged |-> Len(GensOf(pre, o.R)) > 0 /\ Unchanged(dk, sld, o.R, ign),
               A_nested |-> Cardinality(Visible(pre, dk, o.R)) > 1,
               A_ign |-> ign # {}]
      ELSE IF o.op \in {"verify", "verifysf", "diff"}
@@ -203,19 +201,26 @@ Verdict(e) ==
               M_exit |-> m.exit = ob.exit,
               M_missing |-> m.missing = ob.missing, M_mismatch |-> m.mismatch = ob.mismatch,
               M_new |-> m.new = ob.new,
-              P_C03_NoFalseAlarm |-> P_C03_NoFalseAlarm(pre, dk, sealed, o, ob, ign),
+              P_C03_NoFalseAlarm |-> P_C03_NoFalseAlarm(pre, dk, sld, o, ob, ign),
               P_C03_Altered |-> P_C03_Altered(pre, dk, o, ob, ign),
               P_C03_Removed |-> P_C03_Removed(pre, dk, o, ob, ign),
               P_C03_Added |-> P_C03_Added(pre, dk, o, ob, ign),
               P_C03_Quiet |-> P_C03_Quiet(pre, dk, o, ob, ign),
-              A_unchanged |-> Len(GensOf(pre, o.R)) > 0 /\ Unchanged(dk, sealed, o.R, ign),
+              A_unchanged |-> Len(GensOf(pre, o.R)) > 0 /\ Unchanged(dk, sld, o.R, ign),
               A_nested |-> Cardinality(Visible(pre, dk, o.R)) > 1,
               A_ign |-> ign # {}]
      ELSE base @@ [kind |-> "other"]
 
-Init == l = 1
+\* the ghost variable of C03 is carried by the trace specification itself, from the observed
+\* steps of one trace (lines of a trace are contiguous and start at i = 0)
+Init == l = 1 /\ sealed = <<>>
 Next == /\ l <= Len(TraceLog)
         /\ PrintT(<<"V", ToJson(Verdict(TraceLog[l]))>>)
         /\ l' = l + 1
-Spec == Init /\ [][Next]_l
+        /\ LET e == TraceLog[l]
+               cur == IF e.i = 0 THEN <<>> ELSE sealed
+           IN sealed' = IF e.op.op \in {"create", "createsf"}
+                        THEN SealedNext(cur, DiskOf(e.pre.disk), Wrote(HistOf(e.pre.hist), HistOf(e.post.hist)), OpOf(e.op), e.exit)
+                        ELSE cur
+Spec == Init /\ [][Next]_<<l, sealed>>
 =============================================================================
